@@ -27,6 +27,7 @@ unsigned long vp_addr(void const* p);
 void* vp_buf(unsigned long n);
 void vp_buf_free(void* p);
 int vp_new_live(void);
+int vp_param(int k);   // concrete shape parameter k of the query
 }
 // symbolic int in [lo,hi]; one nondet call per statement so that evaluation order is fixed
 static inline int vp_range(int lo, int hi) { int v = vp_nondet_int(); vp_assume(v >= lo && v <= hi); return v; }
